@@ -13,6 +13,7 @@ From Coq Require Import List NArith ZArith.
 From Coq Require Import Init.Byte.
 From Bec2 Require Import Base.Result Base.Bytes Base.Reader Gen.Consts Model.Cbc Model.Bf3 Model.AesContainer
   Model.Bec2 Model.ConfigId Proofs.ClosureProofs Proofs.ConfigIdProofs.
+From Bec2 Require Model.Bf2Import Proofs.Bf2ClosureProofs.
 Import ListNotations.
 Open Scope N_scope.
 
@@ -53,6 +54,24 @@ Proof.
   intro t. destruct (create_from_str_errors t) as [[i ->]| ->]; [exact I|reflexivity].
 Qed.
 Print Assumptions C14_configid.
+
+(* BF2 importer (text level model of Model/Bf2Import.v, tied to /repo by C13's correspondence):
+   every failure is a format error or a ValueError, for every text, with and without the
+   BF3-compatibility check; the platform-filter formatter fails only with Bf3FileFormatError *)
+Theorem C14_bf2_import : forall text enforce,
+  okerr (Model.Bf2Import.bf2_import_text text enforce).
+Proof.
+  intros text enforce. destruct (Model.Bf2Import.bf2_import_text text enforce) as [f|e] eqn:E; [exact I|].
+  exact (Proofs.Bf2ClosureProofs.import_text_closure text enforce e E).
+Qed.
+Print Assumptions C14_bf2_import.
+
+Theorem C14_pfid2_filter : forall f, okerr (Model.Bf2Import.pfid2_filter_to_str f).
+Proof.
+  intro f. destruct (Model.Bf2Import.pfid2_filter_to_str f) as [s|e] eqn:E; [exact I|].
+  rewrite (Proofs.Bf2ClosureProofs.filter_str_closure f e E). reflexivity.
+Qed.
+Print Assumptions C14_pfid2_filter.
 
 (* hex2bin and the comment/hex parser *)
 Theorem C14_parse_bf3_file : forall t, okerr (parse_bf3_file t).
